@@ -93,7 +93,7 @@ theorem cp_eq_sum_partial {s s' : State} {op : Op} (hi : Inv12 s) (h : stepRel s
   | collect v i j rew => exact inv12_frame (collect_frame h) hi
   | updBlobber i c p => exact inv12_frame (updBlobber_frame h) hi
   | killBlobber i n d => exact inv12_frame (killBlobber_frame h) hi
-  | shutBlobber i d => exact inv12_frame (shutBlobber_frame h) hi
+  | shutBlobber i n d => exact inv12_frame (shutBlobber_frame h) hi
   | killValidator i n d => exact inv12_frame (killValidator_frame h) hi
   | newAlloc j data size value chosen => exact newAlloc_inv12 h hi
   | update k c value size ext add rem rw cc dp ds => exact update_inv12_partial h hn hi
